@@ -63,7 +63,7 @@ class TokenParser(Parser):
             "ENUM",
         )
         TOK.add(r"(?<=})\s*(?P<defs>(?:[a-zA-Z0-9_]+\s*,\s*)+[a-zA-Z0-9_]+)\s*(?=;)", "DEFS")
-        TOK.add(r"(?P<name>(?:\*\s*)*[a-zA-Z0-9_]+)(?:\s*:\s*(?P<bits>\d+))?(?:\s*\[(?P<count>[^;\n]*)\])?\s*(?=;)", "NAME")
+        TOK.add(r"(?P<name>(?:\*\s*)*[a-zA-Z0-9_]+)(?:\s*:\s*(?P<bits>\d+))?(?:\s*\[(?P<count>[^;]*)\])?\s*(?=;)", "NAME")
         TOK.add(r"[a-zA-Z_][a-zA-Z0-9_]*", "IDENTIFIER")
         TOK.add(r"[{}]", "BLOCK")
         TOK.add(r"\$(?P<name>[^\s]+) = (?P<value>{[^}]+})\w*[\r\n]+", "LOOKUP")
@@ -293,13 +293,14 @@ class TokenParser(Parser):
 
         if count_expression is not None:
             # Poor mans multi-dimensional array by abusing the eager regex match of count
-            counts = count_expression.split("][") if "][" in count_expression else [count_expression]
+            # (there may be whitespace between the dimensions)
+            counts = re.split(r"\]\s*\[", count_expression)
 
             for count in reversed(counts):
-                if count == "":
+                if count.strip() == "":
                     count = None
                 else:
-                    count = Expression(self.cstruct, count)
+                    count = Expression(self.cstruct, count.strip())
                     # A name of a preceding field refers to that field, also if a constant of that name exists
                     if not (field_names and field_names.intersection(count.tokens)):
                         try:
